@@ -71,6 +71,20 @@ class Transcript:
     def cycle_positions(self):
         return [i for i, l in enumerate(self.lines) if l.split()[1] in ("cycle", "flush")]
 
+    def cycles(self):
+        """(position where the cycle began, position of its report); a stepped cycle begins at cycBegin"""
+        out, begin = [], None
+        for i, l in enumerate(self.lines):
+            op = l.split()[1]
+            if op in ("cycle", "flush"):
+                out.append((i, i))
+            elif op == "cycBegin":
+                begin = i
+            elif op == "cycStep" and i < len(self.outs) and self.outs[i].startswith("rep ") and begin is not None:
+                out.append((begin, i))
+                begin = None
+        return out
+
 
 def idmap(spec, tr):
     """name -> set of ids, from delivered records and from context observations"""
@@ -175,8 +189,7 @@ def o_exactly_once(spec, tr):
     out = []
     ids = idmap(spec, tr)
     must, never = expected_final(spec)
-    cyc = tr.cycle_positions()
-    rep_pos = set(p for p, _ in tr.reports)
+    cyc = tr.cycles()
 
     def key(name, trace, parent):
         return (name, trace, parent)
@@ -201,9 +214,11 @@ def o_exactly_once(spec, tr):
         # timing: due at the first cycle after the span finished (default) / after the root's commit (cancelable)
         for e, pos in zip(sorted(es, key=lambda e: e["fin"]), sorted(g)):
             due_after = e["fin"] if not spec.cancelable else spec.traces[e["root"]]["commit_pos"]
-            due = next((c for c in cyc if c > due_after), None)
-            if due is not None and pos != due:
-                out.append("span %r (trace %x) was due in the report of the cycle at line %d (finished at line %d) but was delivered at line %d" % (k[0], k[1], due, due_after, pos))
+            # at the latest in the first cycle that *begins* after it was due; a cycle already in
+            # progress (stepped drain) may pick it up earlier, never before it was due
+            due = next((rp for (b, rp) in cyc if b > due_after), None)
+            if due is not None and not (due_after < pos <= due):
+                out.append("span %r (trace %x) was due by the report of the cycle at line %d (finished at line %d) but was delivered at line %d" % (k[0], k[1], due, due_after, pos))
     wantkeys = set((k[0], k[1]) for k in want)
     for e in never:
         n = sum(len(v) for kk, v in got.items() if kk[0] == e["name"] and kk[1] == e["trace"])
